@@ -51,7 +51,10 @@ def _case(draw):
 
 def parts(tier):
     q = tier == "quick"
-    return [Part("brent", strategy=_case(), examples=6000 if q else 200000, timeout=60)]
+    return [Part("brent", strategy=_case(), examples=6000 if q else 200000, timeout=60),
+            # the same strategy and oracle under a coverage-guided campaign (libFuzzer mutates Hypothesis' choice bytes with
+            # coverage feedback from the instrumented root finders)
+            Part("brent_cov", strategy=_case(), fuzz=1600 if q else 160000, timeout=60)]
 
 
 class Fn(object):
